@@ -188,7 +188,13 @@ func (r *RoundTripper) RoundTripOpt(req *http.Request, opt RoundTripOpt) (*http.
 		// the request's own context that is done
 		if isReused && req.Context().Err() == nil {
 			if nerr, ok := err.(net.Error); ok && nerr.Timeout() {
-				return r.RoundTripOpt(req, opt)
+				// The request - body included - may have been written before the
+				// cached connection timed out: send it again only with its body
+				// rewound, never with what is left of a partly read body.
+				if retryReq, ok := rewindForRetry(req); ok {
+					return r.RoundTripOpt(retryReq, opt)
+				}
+				return rsp, err
 			}
 			// The cached connection turned out to be dead (closed by the peer or
 			// by an earlier error) before this request got a response: like
@@ -201,6 +207,26 @@ func (r *RoundTripper) RoundTripOpt(req *http.Request, opt RoundTripOpt) (*http.
 		}
 	}
 	return rsp, err
+}
+
+// rewindForRetry returns the request to send again after a failed attempt that may
+// have read from the body: the request itself when it has no body, a copy with a
+// fresh body from GetBody when there is one, and false when the body cannot be
+// rewound.
+func rewindForRetry(req *http.Request) (*http.Request, bool) {
+	if req.Body == nil || req.Body == http.NoBody {
+		return req, true
+	}
+	if req.GetBody == nil {
+		return nil, false
+	}
+	body, err := req.GetBody()
+	if err != nil {
+		return nil, false
+	}
+	newReq := *req
+	newReq.Body = body
+	return &newReq, true
 }
 
 // shouldRetryDial reports whether req, which was waiting for a dial started by
